@@ -16,9 +16,15 @@ CMD_TOKEN = {'status': 'Status', 'diff': 'Diff', 'list': 'List', 'dup': 'Dup', '
 
 def full_snapshot(arr):
     """every object under the array root: path -> tuple.  Files: ('f', bytes, mtime_ns, ino, nlink, mode);
-    symlinks ('l', target, mtime_ns); directories ('d', mode).  Directory mtimes are not compared (creating the
-    lock / log / .tmp entries legitimately changes them)."""
+    symlinks ('l', target, mtime_ns); directories ('d', mode) and, inside the data disks (the disk directory included),
+    ('d', mode, mtime_ns): an entry created or removed there changes it.  Other directory mtimes are not compared (creating
+    the lock / log / .tmp entries legitimately changes them)."""
     snap = {}
+    droots = [os.path.join(arr.root, d) for d in arr.disks]
+    for dr in droots:
+        if os.path.isdir(dr):
+            st = os.lstat(dr)
+            snap[dr] = ('d', stat.S_IMODE(st.st_mode), st.st_mtime_ns)
     for root, dirs, files in os.walk(arr.root):
         for n in dirs + files:
             p = os.path.join(root, n)
@@ -26,7 +32,10 @@ def full_snapshot(arr):
             if stat.S_ISLNK(st.st_mode):
                 snap[p] = ('l', os.readlink(p), st.st_mtime_ns)
             elif stat.S_ISDIR(st.st_mode):
-                snap[p] = ('d', stat.S_IMODE(st.st_mode))
+                if any(p.startswith(dr + '/') for dr in droots):
+                    snap[p] = ('d', stat.S_IMODE(st.st_mode), st.st_mtime_ns)
+                else:
+                    snap[p] = ('d', stat.S_IMODE(st.st_mode))
             elif stat.S_ISREG(st.st_mode):
                 with open(p, 'rb') as f:
                     snap[p] = ('f', f.read(), st.st_mtime_ns, st.st_ino, st.st_nlink, stat.S_IMODE(st.st_mode))
@@ -129,6 +138,8 @@ def snapshot_diff(paths, before, after):
             if b[5] != a[5]:
                 what.append('mode')
             out.append((cl, '+'.join(what), b, a))
+        elif b[0] == 'd' and b[1] == a[1]:
+            out.append((cl, 'dirmtime', b, a))      # only the time of a data directory: an entry was made or removed in it
         else:
             out.append((cl, 'changed', b, a))
     return out
